@@ -398,6 +398,15 @@ func init() {
 		ID:  "C07",
 		New: func() interface{} { return &C07Case{} },
 		Gen: genC07,
+		// native fuzz: byte 0 picks the entry point, byte 1 the template, byte 2 rules on/off, the rest is the document
+		FromBytes: func(data []byte) interface{} {
+			if len(data) < 3 {
+				return nil
+			}
+			return &C07Case{Op: "bytes", Entry: c07ByteEntries[int(data[0])%len(c07ByteEntries)], Tmpl: c07TemplateNames[int(data[1])%len(c07TemplateNames)],
+				Rules: data[2]&1 == 1, Doc: append([]byte{}, data[3:]...), Note: "native-fuzz"}
+		},
+		FuzzSeeds: func() [][]byte { return fuzzSeedDocs(3) },
 		Check: func(ci interface{}, ctx *Ctx) error {
 			c := ci.(*C07Case)
 			ctx.Label("op:" + c.Op)
@@ -441,4 +450,30 @@ func c07Describe(c *C07Case) string {
 		return fmt.Sprintf("template=%s rules=%v doc(%s)=%s", c.Tmpl, c.Rules, c.Note, textdump(c.Doc))
 	}
 	return fmt.Sprintf("template=%s rules=%v doc(%s)=%s", c.Tmpl, c.Rules, c.Note, hexdump(c.Doc))
+}
+
+// fuzzSeedDocs: small valid CBE / CTE documents and hostile constants, each behind `prefix` selector bytes.
+func fuzzSeedDocs(prefix int) [][]byte {
+	docs := [][]byte{
+		{0x81, 0x00, 0x9a, 0x01, 0x82, 'h', 'i', 0x7f, 0xe2, 0x04, 1, 0, 2, 0, 0x9b},
+		{0x81, 0x00, 0x99, 0x81, 'a', 0x7f, 0xf0, 0x01, 'm', 0x9a, 0x9b, 0x81, 'b', 0x77, 0x01, 'm', 0x9b},
+		{0x81, 0x00, 0x7f, 0xf1, 0x01, 'r', 0x81, 'k', 0x9b, 0x96, 0x01, 'r', 0x6a, 0xff, 0xff, 0x9b},
+		{0x81, 0x00, 0x90, 0xfe, 0xff, 0xff, 0xff, 0x1f},
+		{0x81, 0x00, 0x7f, 0xf3, 0x03, 'a', '/', 'b', 0x04, 1, 2},
+		{0x81, 0x00, 0x7c, 0x01, 0x00, 0x10, 0x62, 0x02, 0x1a, 'E', '/', 'B'},
+		{0x81, 0x00, 0x76, 0x06, 0x0f, 0x66, 0x09, 1, 2, 3, 4, 5, 6, 7, 8, 9},
+		[]byte("c0\n[1 -2 0x1.8p3 \"a\\[41]\" @u8x[ff 00] @application/x[01] &m:{\"k\" = $m} 2000-01-01/10:00:00/E/Berlin]"),
+		[]byte("c0\n@r<\"a\" \"b\">\n[@r{1 2} (1 2 3) @(1 2 3) |c 1 2| /* c */ null true nan -inf 1.5e-300 @b[1011] f1e2d3c4-b5a6-9788-7766-554433221100]"),
+		[]byte("c0\n\"\\.## verbatim##\""),
+		[]byte("C1 {1=2}"),
+	}
+	out := make([][]byte, 0, len(docs))
+	for i, d := range docs {
+		p := make([]byte, prefix)
+		for j := range p {
+			p[j] = byte(i*7 + j)
+		}
+		out = append(out, append(p, d...))
+	}
+	return out
 }
